@@ -3,6 +3,7 @@ import lib
 from lib import D, I, U, Fl, fbits, rule_text
 from props import common, rulebase
 import gen
+import covfam
 
 ALL_SW = list(range(16))
 
@@ -44,6 +45,12 @@ def run(ck):
                  "A and all(A)", "A and of(A, 1)", "not (A and 1)", "A and int(x) == 1", "int(x) == 1 and A", "A and not 1"]:
         cases.append({"k": "rule", "id": ck.new_id(), "rule": rule_text({"A": {"f": "x"}, "condition": cond}), "docs": [D({"f": "x", "x": 1}), D({})],
                       "sw": ALL_SW, "validate": True, "_docs": []})
+    # the coverage families (check/covfam.py): casts against every value kind, cast comparisons in
+    # conditions, lists beyond 64 needles, nested or-of-ands over arrays, shapes the loader must reject
+    for fam, det, docs, extra in covfam.all_cases():
+        cases.append({"k": "rule", "id": ck.new_id(), "rule": rule_text(det, extra=extra), "docs": [D(d) for d in docs],
+                      "sw": ALL_SW, "validate": True, "_docs": docs})
+        ck.count("family:" + fam)
     wit = rulebase.witness_cases(ck, "C03", repeat=1)
     allc = cases + wit
     send = rulebase.wire(allc)
